@@ -117,11 +117,20 @@ class _Switch(object):
         self.fn = fn
 
 
+class _Timeout(object):
+    """script entry: this recv() call times out (socket.timeout), as on an idle connection"""
+
+
 class _NestedSocket(SL.FakeSocket):
-    """script entries of type _Switch are run (another connection's whole session) before the next read returns"""
+    """script entries of type _Switch are run (another connection's whole session) before the next read returns;
+    entries of type _Timeout make that recv() raise socket.timeout"""
     def recv(self, n):
         while self.chunks and type(self.chunks[0]) is _Switch:
             self.chunks.pop(0).fn()
+        if self.chunks and type(self.chunks[0]) is _Timeout:
+            self.chunks.pop(0)
+            import socket
+            raise socket.timeout("idle")
         return SL.FakeSocket.recv(self, n)
 
 
@@ -173,6 +182,30 @@ def _iso_run(frontend, ctx, a_chunks, b_chunks, interleave):
         finally:
             events._set_running_loop(old)
     return b"".join(outA.written), b"".join(outB.written)
+
+
+def make_idle_timeout(framing):
+    """synchronous stream front-end: a recv() time-out while the connection is idle (and one between the two halves of a
+    split frame) must not change what the connection is answered"""
+    def idle(t: bytes, v: bytes, st: bytes) -> bool:
+        import pymodbus.server.sync as S
+        from pymodbus.factory import ServerDecoder
+        assume(len(t) == 4 and len(v) == 4 and len(st) == 12)
+        f1 = adu.ref_adu(framing, bytes([6, 0, 0, v[0], v[1]]), 1, t[0:2])
+        f2 = adu.ref_adu(framing, bytes([3, 0, 0, 0, 1]), 1, t[2:4])
+        half = 7 if framing == "ascii" else len(f1)
+        outs = []
+        for script in ([f1[:half], f1[half:], f2], [_Timeout(), f1[:half], f1[half:], _Timeout(), f2]):
+            script = [c for c in script if type(c) is _Timeout or len(c) > 0]
+            slave, ctx = _fresh(st)
+            res = SL.Result()
+            server = SL.FakeServer(adu.framer_class(framing), ctx, ServerDecoder(), False, False)
+            S.ModbusConnectedRequestHandler(_NestedSocket(script, res, False), ("peer", 1), server)
+            outs.append((b"".join(res.written), SL.dump(slave)))
+        if len(outs[0][0]) == 0:
+            return False
+        return same(outs[1][0], outs[0][0], "output with idle time-outs vs without") and same(outs[1][1], outs[0][1], "datastore")
+    return idle
 
 
 def make_iso(frontend):
@@ -232,6 +265,9 @@ def obligations(tier):
                 out.append(Obl("diff.%s.tcp.multi-unit.im=%s.%s" % (kind, im, "one-read" if one_read else "two-reads"),
                                make_diff_multi(kind, "tcp", im, one_read), timeout=T,
                                bounds="%s front-ends, two hosted units (255 and 1), two FC6 requests with SYMBOLIC unit ids (hosted or absent), ignore_missing_slaves=%s, %s; all contents symbolic" % (kind, im, "pipelined in one read" if one_read else "one per read")))
+    for fr in ("ascii", "tcp"):
+        out.append(Obl("idle-timeout.sync-tcp.%s" % fr, make_idle_timeout(fr), timeout=T, contracts=CONTRACTS[fr], lemmas=LEMMAS[fr],
+                       bounds="synchronous stream handler, %s framer: recv() time-outs before the first request and between requests%s; values, tids, initial store symbolic" % (fr, " and a request split in two reads" if fr == "ascii" else "")))
     for fe in ("sync-tcp", "asyncio-tcp", "twisted-tcp"):
         out.append(Obl("iso.%s" % fe, make_iso(fe), timeout=T, contracts=("lrc",), lemmas=("K2",),
                        bounds="%s with the ASCII framer: connection A's frame split in two reads with connection B's two requests in between; values, tids and initial store symbolic" % fe))
